@@ -1,8 +1,6 @@
 #!/bin/bash
-# re-evaluate every kept seeded change against the current checks (quick tier); prints the ones that are not caught
+# re-evaluate every kept seeded change against the current checks (quick tier), P at a time (each evaluation has its own
+# scratch worktree of /repo and its own copy of the Lean project); prints one line per change
 cd /verif
-for d in seeded/*/; do
-  n=$(basename $d)
-  out=$(tools/eval_seeded.py $n --skip-demo 2>&1 | tail -1)
-  echo "$n :: $out"
-done
+P=${1:-4}
+ls seeded | xargs -P $P -I{} bash -c 'out=$(tools/eval_seeded.py {} --skip-demo 2>&1 | tail -1); echo "{} :: $out"'
